@@ -6,7 +6,8 @@ def mk(algo, n, maxlen, lcp, thr, memory, quick, timeout=None):
     name = 'a%d_n%d_l%d%s%s%s' % (algo, n, maxlen, '_lcp' if lcp else '', '_thr%d' % thr if thr else '', '_mem%d' % memory if memory else '')
     defs = ['ALGO=%d' % algo, 'N=%d' % n, 'MAXLEN=%d' % maxlen, 'WITH_LCP=%d' % lcp, 'MEMORY=%d' % memory] + (['TLX_VERIF_INSSORT_THRESHOLD=%d' % thr] if thr else [])
     return Query(name, SRC, 'h_strsort', '%s%s on %d C strings of length 0..%d, all byte values%s, memory limit %d' % (AN[algo], ' with LCP output' if lcp else '', n, maxlen, ', insertion-sort threshold lowered to %d by the guarded hook' % thr if thr else '', memory),
-                 defs=defs, ll2c=['--alloc-cap', '4096'], tiers=('quick', 'thorough') if quick else ('thorough',), timeout=timeout or (1800 if quick else 7200), unwind=4, max_unwind=300, weight=n * maxlen * (3 if algo >= 3 else 1), mem_gb=30)
+                 defs=defs, ll2c=['--alloc-cap', '4096'], tiers=('quick', 'thorough') if quick else ('thorough',), timeout=timeout or (1800 if quick else 7200), unwind=4, max_unwind=300, weight=n * maxlen * (3 if algo >= 3 else 1), mem_gb=30,
+                 recursion=(maxlen + 1) if algo >= 2 else 0)   # recursion descends one character per level: maxlen + 1 re-entries suffice (the tuner raises the bound if CBMC's recursion assertion fails)
 
 def queries():
     qs = []
